@@ -36,7 +36,11 @@ STATUS OF THIS ROUND (be careful what is claimed):
       `FamilyObligation` and are plugged into the dispatch-level theorem; the obligation of the
       other 29 message types stays an explicit hypothesis (`hrest`);
     * `rejected_leaves_state`, `refused_leaves_state` — an error (a refused CAS) commits nothing.
-  STILL OPEN: the handlers outside `CV.Store` (ACL, config entries, intentions, CA, peering, …):
+  ROUND 4 — section 5: 17 of the 36 message types are concrete handlers in
+  `replicas_agree_consul_families` (models of C03/C04, C10, C13, C07 wrapped in `CV/FsmFamilies.lean`),
+  with `concrete_rejected_leaves_state`; `vip_family_counterexample` keeps the virtual-IP rendering of
+  `RegisterRequestType` as the family that does NOT meet the obligation (the known finding).
+  STILL OPEN: the 19 message types of `Families.opaqueTypes` and everything outside `CV.Store` (ACL, config entries, intentions, CA, peering, …):
   tied to the property only by the replica-diff harness (three real FSMs, two processes, different
   clocks / map seeds / GOMAXPROCS / bind addresses) and by the facts.
 -/
@@ -46,6 +50,7 @@ import CV.Proofs.Fsm
 import CV.Generated.FactsFsm
 import CV.Store.Env
 import CV.Proofs.StoreEnv
+import CV.FsmFamilies
 
 namespace CV.Props.C01
 open CV CV.Fsm
@@ -810,5 +815,275 @@ theorem refused_leaves_state (s : State) (idx : Nat) (c : Cmd) (h : (Store.apply
 #guard (Store.apply State.empty 5 (.txn [.kv .set ⟨[97], "=v", 0, "", 0, 0, 0⟩, .kv .get ⟨[98], "", 0, "", 0, 0, 0⟩])).1 == State.empty
 
 end Store
+
+/-! ## 5. Every command family that has a model, plugged into the dispatch table (round 4)
+
+`CV/FsmFamilies.lean` wraps the models of C03/C04 (`CV.Store`), C10 (`CV.Cas`), C13 (`CV.Ixn`) and
+C07 (`CV.Store.CatX`: system metadata, coordinates) as handlers over the product state `Joint`.
+17 of the 36 registered message types are concrete; the hypothesis of
+`replicas_agree_consul_families` is about the other 19 (`Families.opaqueTypes`). The tie of each
+model to the code is the correspondence run of the owning property (`bin/check C03 C04 C07 C10 C13`). -/
+
+section Families
+open CV.Fsm.Families
+
+/-- Every concrete family meets its obligation: the store handlers by the non-interference proof
+    of section 4, all others because their models have no environment input at all. -/
+theorem concrete_family_obligation {O R' : Type} (d : Families.Decoders) :
+    ∀ f ∈ (concreteFamilies d : List (Table Store.Env (Joint O) (JRes R'))),
+      FamilyObligation (fun _ => True) f := by
+  have hs : ∀ (dec : Store.Decoder), HandlerEnvIndependent (storeH (O := O) (R' := R') dec) := by
+    intro dec e₁ e₂ s idx p
+    simp only [storeH]
+    cases dec p with
+    | none => rfl
+    | some c => simp only [applyEnv_env_independent e₁ e₂ s.store s.store rfl idx c]
+  have hp : ∀ (h : Handler Store.Env (Joint O) (JRes R')), (∀ e₁ e₂ s idx p, h e₁ s idx p = h e₂ s idx p) →
+      HandlerEnvIndependent h := fun h hh => hh
+  intro f hf
+  simp only [concreteFamilies, List.mem_cons, List.not_mem_nil, or_false] at hf
+  refine ⟨?_, fun _ _ _ _ _ _ _ _ _ _ => trivial⟩
+  intro x hx e₁ e₂ s idx p _
+  rcases hf with rfl | rfl | rfl | rfl | rfl <;>
+    simp only [storeFamily, casFamily, ixnFamily, catFamily, legacyAclFamily,
+      List.mem_cons, List.not_mem_nil, or_false] at hx
+  · rcases hx with rfl | rfl | rfl | rfl | rfl | rfl | rfl <;> exact hs _ e₁ e₂ s idx p
+  · rcases hx with rfl | rfl | rfl | rfl | rfl | rfl <;> rfl
+  · subst hx; rfl
+  · rcases hx with rfl | rfl <;> rfl
+  · subst hx; rfl
+
+/-- **Replicas agree on the consul dispatch table with 17 message types concrete.** `rest` stands
+    for the handlers of the message types in `Families.opaqueTypes` (19: ACL bootstrap / policy /
+    role / binding rule / auth method, CA leaf, federation state, the six peering commands, resource
+    operations, manual virtual IPs) over the uncovered tables `O`; its obligation is the only
+    hypothesis left. -/
+theorem replicas_agree_consul_families {O R' : Type} (d : Families.Decoders)
+    (rest : Table Store.Env (Joint O) (JRes R'))
+    (hrest : FamilyObligation (fun _ => True) rest) (ced : Bool)
+    (envs₁ envs₂ : Nat → Store.Env) (s : Joint O) (log : List (Nat × Bytes)) :
+    run ((concreteFamilies d).flatten ++ rest) ced envs₁ s log =
+    run ((concreteFamilies d).flatten ++ rest) ced envs₂ s log :=
+  (replicas_agree_inv (fun _ => True) _
+    (envIndependentOn_append _ _ _ (envIndependentOn_of_families _ _ (concrete_family_obligation d)) hrest)
+    ced envs₁ envs₂ s trivial log).1
+
+/-- The concrete handlers sit in the audited slots of their message types, and concrete + opaque
+    message types are exactly the registered ones (17 + 19 = 36, no overlap). -/
+theorem concrete_opaque_partition {O R' : Type} (d : Families.Decoders) :
+    slots ((concreteFamilies d).flatten : Table Store.Env (Joint O) (JRes R')) =
+      [0, 1, 2, 3, 5, 7, 8, 22, 13, 9, 45, 17, 18, 12, 31, 6, 4] ∧
+    concreteTypes.map Consul.typeByte = [0, 1, 2, 3, 5, 7, 8, 22, 13, 9, 45, 17, 18, 12, 31, 6, 4].map some ∧
+    (concreteTypes ++ opaqueTypes).Nodup ∧ (concreteTypes ++ opaqueTypes).length = 36 ∧
+    (∀ m ∈ CV.Facts.Fsm.registeredCommands, m.1 ∈ concreteTypes ++ opaqueTypes) := by
+  refine ⟨rfl, ?_, ?_, ?_, ?_⟩ <;> decide
+
+/-! ### rejected ⇒ unchanged, per model -/
+
+/-- CV.Cas: an error answer commits nothing (CA config mismatch, inadmissible roots, feature gate
+    without status / policy, token batch error). -/
+theorem cas_error_leaves_state (s : Cas.State) (i : Nat) (c : Cas.Cmd) (e : Cas.Err)
+    (hc : (casConfigEntry c || casConnectCA c || casAutopilot c || casFeatureGate c || casTokenSet c || casTokenDelete c) = true)
+    (h : (Cas.fsmApply s i c).res = .err e) : (Cas.fsmApply s i c).state = s := by
+  cases c <;> simp [casConfigEntry, casConnectCA, casAutopilot, casFeatureGate, casTokenSet, casTokenDelete] at hc <;>
+    simp only [Cas.fsmApply, Cas.storeApply, Cas.cfgCas, Cas.cfgDeleteCas, Cas.caConfigCas, Cas.caRootsCas,
+      Cas.caRootsAndConfig, Cas.apCas, Cas.fgUpdate, Cas.tokBatchSet] at h ⊢ <;>
+    (repeat' split at h) <;> (try simp_all)
+
+/-- CV.Cas: a check-and-set answered `false` commits nothing. (Per command, with the exact matching
+    condition, this is C10's `…_failed_unchanged` family and `fsm_conditional_not_reported_unchanged`
+    in `CV/Props/C10.lean`; it is re-derived here from the definitions so that this module does not
+    depend on another property's theorem file.) -/
+theorem cas_refused_leaves_state (s : Cas.State) (i : Nat) (c : Cas.Cmd)
+    (hc : (casConfigEntry c || casConnectCA c || casAutopilot c || casFeatureGate c || casTokenSet c || casTokenDelete c) = true)
+    (h : (Cas.fsmApply s i c).res = .ok false) : (Cas.fsmApply s i c).state = s := by
+  cases c <;> simp [casConfigEntry, casConnectCA, casAutopilot, casFeatureGate, casTokenSet, casTokenDelete] at hc <;>
+    simp only [Cas.fsmApply, Cas.storeApply, Cas.cfgCas, Cas.cfgDeleteCas, Cas.caConfigCas, Cas.caRootsCas,
+      Cas.caRootsAndConfig, Cas.apCas, Cas.fgUpdate, Cas.tokBatchSet] at h ⊢ <;>
+    (repeat' split at h) <;> (try simp_all)
+
+/-- CV.Ixn: a rejected intention write leaves the store as it was. -/
+theorem ixn_rejected_leaves_store (st : Ixn.Store) (op : Ixn.Op) (e : Ixn.Err)
+    (h : (Ixn.applyOpE st op).2 = some e) : (Ixn.applyOpE st op).1 = st := by
+  cases op <;> simp only [Ixn.applyOpE] at h ⊢
+  case ent x => simp only [Ixn.applyEntry] at h ⊢; split at h <;> simp_all
+  case entdel n => simp at h
+  case up dst v =>
+    simp only [Ixn.mutUpsert] at h ⊢
+    repeat' split at h
+    all_goals (try simp_all)
+    all_goals (try (split <;> rfl))
+  case del dst src =>
+    simp only [Ixn.mutDelete] at h ⊢
+    repeat' split at h
+    all_goals (try simp_all)
+    all_goals (try (split <;> rfl))
+  case lcreate dst v =>
+    simp only [Ixn.mutLegacyCreate] at h ⊢
+    repeat' split at h
+    all_goals (try simp_all)
+    all_goals (try (split <;> rfl))
+  case lupdate id v =>
+    simp only [Ixn.mutLegacyUpdate] at h ⊢
+    repeat' split at h
+    all_goals (try simp_all)
+    all_goals (try (split <;> rfl))
+  case ldelid id =>
+    simp only [Ixn.mutLegacyDelete] at h ⊢
+    repeat' split at h
+    all_goals (try simp_all)
+    all_goals (try (split <;> rfl))
+  case lset id r =>
+    simp only [Ixn.legacySet] at h ⊢
+    repeat' split at h
+    all_goals (try simp_all)
+    all_goals (try (split <;> rfl))
+  case ldel id =>
+    simp only [Ixn.legacyDelete] at h ⊢
+    repeat' split at h
+    all_goals (try simp_all)
+    all_goals (try (split <;> rfl))
+
+/-- system metadata and coordinate batches are never rejected by the store (the FSM handler returns
+    `true` / `nil`); there is nothing to leave unchanged -/
+theorem cat_never_rejected (s : Store.XState) (idx : Nat) (c : Store.XCmd)
+    (hc : (catSysMeta c || catCoords c) = true) : (Store.applyX s idx c).2 = .ok := by
+  cases c <;> simp [catSysMeta, catCoords] at hc <;> rfl
+
+/-- **Rejected ⇒ unchanged, on the joint table:** whichever concrete handler ran, an error answer
+    leaves every component of the replicated state as it was (the store component is compared
+    through `State.repl`: its server-local `loc` is not replicated state). -/
+theorem concrete_rejected_leaves_state {O R' : Type} (d : Families.Decoders)
+    (x : Nat × Handler Store.Env (Joint O) (JRes R')) (hx : x ∈ (concreteFamilies d).flatten)
+    (env : Store.Env) (s s' : Joint O) (idx : Nat) (p : Bytes) (r : JRes R')
+    (hr : x.2 env s idx p = some (s', r)) (he : r.isErr = true) :
+    s'.store.repl = s.store.repl ∧ s'.cas = s.cas ∧ s'.ixn = s.ixn ∧ s'.cat = s.cat ∧ s'.other = s.other := by
+  have hS : ∀ (dec : Store.Decoder), storeH (O := O) (R' := R') dec env s idx p = some (s', r) →
+      s'.store.repl = s.store.repl ∧ s'.cas = s.cas ∧ s'.ixn = s.ixn ∧ s'.cat = s.cat ∧ s'.other = s.other := by
+    intro dec h
+    simp only [storeH] at h
+    cases hd : dec p with
+    | none => simp [hd] at h
+    | some c =>
+      simp only [hd, Option.some.injEq, Prod.mk.injEq] at h
+      obtain ⟨h1, h2⟩ := h
+      subst h1 h2
+      simp only [JRes.isErr] at he
+      refine ⟨?_, rfl, rfl, rfl, rfl⟩
+      show (Store.applyEnv env s.store idx c).1.repl = s.store.repl
+      rw [rejected_leaves_state_env env s.store idx c he]; rfl
+  have hC : ∀ (al : Cas.Cmd → Bool) (dec : Bytes → Option Cas.Cmd),
+      (∀ c, al c = true → (casConfigEntry c || casConnectCA c || casAutopilot c || casFeatureGate c || casTokenSet c || casTokenDelete c) = true) →
+      casH (O := O) (R' := R') al dec env s idx p = some (s', r) →
+      s'.store.repl = s.store.repl ∧ s'.cas = s.cas ∧ s'.ixn = s.ixn ∧ s'.cat = s.cat ∧ s'.other = s.other := by
+    intro al dec hal h
+    simp only [casH] at h
+    cases hd : dec p with
+    | none => simp [hd] at h
+    | some c =>
+      simp only [hd] at h
+      by_cases ha : al c = true
+      · simp only [ha, if_true, Option.some.injEq, Prod.mk.injEq] at h
+        obtain ⟨h1, h2⟩ := h
+        subst h1 h2
+        cases hres : (Cas.fsmApply s.cas idx c).res with
+        | err e => exact ⟨rfl, cas_error_leaves_state s.cas idx c e (hal c ha) hres, rfl, rfl, rfl⟩
+        | _ => simp [JRes.isErr, hres] at he
+      · simp [ha] at h
+  have hI : ∀ (dec : Bytes → Option Ixn.Op), ixnH (O := O) (R' := R') dec env s idx p = some (s', r) →
+      s'.store.repl = s.store.repl ∧ s'.cas = s.cas ∧ s'.ixn = s.ixn ∧ s'.cat = s.cat ∧ s'.other = s.other := by
+    intro dec h
+    simp only [ixnH] at h
+    cases hd : dec p with
+    | none => simp [hd] at h
+    | some op =>
+      simp only [hd] at h
+      by_cases ha : ixnIntentionOp op = true
+      · simp only [ha, if_true, Option.some.injEq, Prod.mk.injEq] at h
+        obtain ⟨h1, h2⟩ := h
+        subst h1 h2
+        cases hres : (Ixn.applyOpE s.ixn op).2 with
+        | none => simp [JRes.isErr, hres] at he
+        | some e => exact ⟨rfl, rfl, ixn_rejected_leaves_store s.ixn op e hres, rfl, rfl⟩
+      · simp [ha] at h
+  have hX : ∀ (al : Store.XCmd → Bool) (dec : Bytes → Option Store.XCmd),
+      (∀ c, al c = true → (catSysMeta c || catCoords c) = true) →
+      catH (O := O) (R' := R') al dec env s idx p = some (s', r) →
+      s'.store.repl = s.store.repl ∧ s'.cas = s.cas ∧ s'.ixn = s.ixn ∧ s'.cat = s.cat ∧ s'.other = s.other := by
+    intro al dec hal h
+    simp only [catH] at h
+    cases hd : dec p with
+    | none => simp [hd] at h
+    | some c =>
+      simp only [hd] at h
+      by_cases ha : al c = true
+      · simp only [ha, if_true, Option.some.injEq, Prod.mk.injEq] at h
+        obtain ⟨h1, h2⟩ := h
+        subst h2
+        simp [JRes.isErr, cat_never_rejected s.cat idx c (hal c ha)] at he
+      · simp [ha] at h
+  simp only [concreteFamilies, storeFamily, casFamily, ixnFamily, catFamily, legacyAclFamily, List.flatten_cons,
+    List.flatten_nil, List.append_nil, List.mem_append, List.mem_cons, List.not_mem_nil, or_false] at hx
+  rcases hx with (h | h | h | h | h | h | h) | (h | h | h | h | h | h) | h | (h | h) | h
+  all_goals subst h
+  all_goals first
+    | exact hS _ hr
+    | exact hC _ _ (by intro c hc; simp [hc]) hr
+    | exact hI _ hr
+    | exact hX _ _ (by intro c hc; simp [hc]) hr
+    | (simp only [legacyAclH, Option.some.injEq, Prod.mk.injEq] at hr; obtain ⟨h1, _⟩ := hr; subst h1
+       exact ⟨rfl, rfl, rfl, rfl, rfl⟩)
+
+/-! ### the environment-dependent family: `RegisterRequestType` with virtual IPs (`addIPOffset`) -/
+
+/-- Whenever a registration leaves the service with a virtual-IP offset, the rendered address — a
+    replicated `services` field — differs between an IPv4-bound and an IPv6-bound server, and a server
+    that cannot determine its bind address yet rejects the command the others accept. -/
+theorem vip_render_env_dependent (s : Rendered) (idx : Nat) (r : Store.XRegReq) (off : Nat)
+    (hok : (Store.applyX s.1 idx (.register r)).2 = .ok)
+    (hoff : registeredOffset (Store.applyX s.1 idx (.register r)).1 r = some off) :
+    (registerRendered .v4 s idx r).1.2 ≠ (registerRendered .v6 s idx r).1.2 ∧
+    (registerRendered .v4 s idx r).2 = .ok ∧
+    (registerRendered .unset s idx r).2 ≠ .ok ∧ (registerRendered .unset s idx r).1 = s := by
+  refine ⟨?_, ?_, ?_, ?_⟩
+  · simp only [registerRendered, hok, hoff, renderVip]
+    intro h
+    simp only [List.cons.injEq, Prod.mk.injEq] at h
+    have := h.1.2
+    simp only [v4Base, v6Base] at this
+    omega
+  · simp only [registerRendered, hok, hoff, renderVip]
+  · simp [registerRendered, hok, hoff, renderVip]
+  · simp only [registerRendered, hok, hoff, renderVip]
+
+/-- **Counterexample family.** For a decoder that can produce such a registration, the family
+    `vipRegisterFamily` does NOT meet its obligation: `replicas_agree` cannot be instantiated for the
+    real `RegisterRequestType` handler once connect services and virtual IPs are in play. This is
+    the recorded finding `env:bind-address-family:services:RegisterRequestType` /
+    `env:bind-address-unset:result:RegisterRequestType` in the model. -/
+theorem vip_family_counterexample (dec : Bytes → Option Store.XRegReq) (p : Bytes) (r : Store.XRegReq)
+    (s : Rendered) (idx off : Nat) (hdec : dec p = some r)
+    (hok : (Store.applyX s.1 idx (.register r)).2 = .ok)
+    (hoff : registeredOffset (Store.applyX s.1 idx (.register r)).1 r = some off) :
+    ¬ FamilyObligation (fun _ => True) (vipRegisterFamily dec) := by
+  intro hF
+  have := hF.indep (0, vipRegisterH dec) (by simp [vipRegisterFamily]) .v4 .v6 s idx p trivial
+  simp only [vipRegisterH, hdec, Option.some.injEq] at this
+  exact (vip_render_env_dependent s idx r off hok hoff).1 (by rw [this])
+
+/-- the witness of the harness (`envSection`): virtual IPs switched on, a connect-native service -/
+def vipWitnessState : Store.XState := (Store.applyX {} 5 (.sysmeta "virtual-ips" (some "true"))).1
+def vipWitnessReg : Store.XRegReq :=
+  ⟨"", ⟨"n1", "", "10.0.0.1", 0, 0⟩, some ⟨"web", "web", 8080, .typical, true, "", [], false, 0⟩, []⟩
+
+/- The hypotheses of `vip_family_counterexample` hold for that witness. TESTS (`#guard`, evaluated by
+   the compiler — string order is not kernel-reducible). -/
+#guard (Store.applyX vipWitnessState 7 (.register vipWitnessReg)).2 == .ok
+#guard registeredOffset (Store.applyX vipWitnessState 7 (.register vipWitnessReg)).1 vipWitnessReg == some 1
+#guard (registerRendered .v4 (vipWitnessState, []) 7 vipWitnessReg).1.2 == [("n1\x00web", v4Base + 1)]
+#guard (registerRendered .v6 (vipWitnessState, []) 7 vipWitnessReg).1.2 == [("n1\x00web", v6Base + 1)]
+#guard (registerRendered .unset (vipWitnessState, []) 7 vipWitnessReg).2 != .ok
+
+end Families
 
 end CV.Props.C01
